@@ -412,3 +412,7 @@ def rule_token_identity(run, prog):
     run.ob("R-17.5", f"{tk.key}::equality-includes-position", why is None,
            f"{why}: `tokens.index(token)` / `token in tokens` on a line with two comments of the same text resolves to the first one",
            tk.node, decorators=deco)
+    # the extent of a comment does not depend on its text: the tokenizer ends it at its closing delimiter for every body over
+    # the delimiters' own characters (a text beginning or ending with `/` or `*`)
+    from .c03_comment_layout import rule_comment_layout
+    rule_comment_layout(run, prog, "R-17.6")
